@@ -379,13 +379,18 @@ impl<S: Syntax, D> SyntaxToken<S, D> {
     /// This is not necessary a direct sibling of this token, but will always be further right in the tree.
     #[inline]
     pub fn next_token(&self) -> Option<&SyntaxToken<S, D>> {
-        match self.next_sibling_or_token() {
-            Some(element) => element.first_token(),
-            None => self
-                .parent()
-                .ancestors()
-                .find_map(|it| it.next_sibling_or_token())
-                .and_then(|element| element.first_token()),
+        // NOTE: siblings that are nodes may not contain any tokens, so we look for the closest following sibling
+        // (of this token or of one of its ancestors) that does
+        let mut current: SyntaxElementRef<'_, S, D> = self.into();
+        loop {
+            let mut sibling = current.next_sibling_or_token();
+            while let Some(element) = sibling {
+                if let Some(token) = element.first_token() {
+                    return Some(token);
+                }
+                sibling = element.next_sibling_or_token();
+            }
+            current = current.parent()?.into();
         }
     }
 
@@ -393,13 +398,18 @@ impl<S: Syntax, D> SyntaxToken<S, D> {
     /// This is not necessary a direct sibling of this token, but will always be further left in the tree.
     #[inline]
     pub fn prev_token(&self) -> Option<&SyntaxToken<S, D>> {
-        match self.prev_sibling_or_token() {
-            Some(element) => element.last_token(),
-            None => self
-                .parent()
-                .ancestors()
-                .find_map(|it| it.prev_sibling_or_token())
-                .and_then(|element| element.last_token()),
+        // NOTE: siblings that are nodes may not contain any tokens, so we look for the closest preceding sibling
+        // (of this token or of one of its ancestors) that does
+        let mut current: SyntaxElementRef<'_, S, D> = self.into();
+        loop {
+            let mut sibling = current.prev_sibling_or_token();
+            while let Some(element) = sibling {
+                if let Some(token) = element.last_token() {
+                    return Some(token);
+                }
+                sibling = element.prev_sibling_or_token();
+            }
+            current = current.parent()?.into();
         }
     }
 }
